@@ -361,6 +361,7 @@ func cmdCheck(args []string) int {
 		if run.ConcCap > 0 {
 			m.Cfg.ConcCap = run.ConcCap
 		}
+		m.Cfg.OnlyLabels = run.Only
 		rr, err := m.Explore(pkgImportPath(m.Module, run.Pkg), run.Entry)
 		he := &harnessEvidence{Entry: run.Entry, Pkg: run.Pkg, What: run.What, Bounds: bounds, Witnesses: map[string]bool{}}
 		hes = append(hes, he)
